@@ -63,13 +63,14 @@ type pipeCase struct {
 // ---------------------------------------------------------------- model
 
 type model struct {
-	prefixes  []refPrefix // legal ones in configured order, or the WKP default
-	illegal   []refPrefix
-	clientNet []netip.Prefix
-	zones     []string
-	exclADef  bool // default list in force (field omitted)
-	exclA     []netip.Prefix
-	exclAAAA  []netip.Prefix
+	prefixes     []refPrefix // legal ones in configured order, or the WKP default
+	illegal      []refPrefix
+	clientNet    []netip.Prefix
+	zones        []string
+	defaultedWKP bool // prefixes omitted / all refused → 64:ff9b::/96 by default
+	exclADef     bool // default list in force (field omitted)
+	exclA        []netip.Prefix
+	exclAAAA     []netip.Prefix
 }
 
 func mustPrefixes(ss ...string) []netip.Prefix {
@@ -111,7 +112,9 @@ func newModel(c cfgSpec) *model {
 		}
 	}
 	if len(m.prefixes) == 0 {
+		// RFC 6147 §5.2 default when no usable prefix is configured
 		m.prefixes = []refPrefix{parseRefPrefix("64:ff9b::/96")}
+		m.defaultedWKP = true
 	}
 	for _, s := range c.ClientNetworks {
 		m.clientNet = append(m.clientNet, netip.MustParsePrefix(s).Masked())
